@@ -4,7 +4,7 @@
 //! in-process DnsService.  The default environment answers every upstream transmission at once,
 //! in order, correctly; a deviation is any departure from that: drop, hold until the next
 //! retransmission, duplicate, wrong id, truncated, non-FIFO delivery, a TCP frame delivered in two
-//! parts, the upstream closing the connection, a colliding upstream query id, maximal retry jitter.
+//! parts, two TCP replies coalesced into one write, the upstream closing the connection, a colliding upstream query id, maximal retry jitter.
 //! Executions always run to the horizon.
 use crate::common::panics;
 use crate::common::report::{Report, Violation};
@@ -310,6 +310,7 @@ fn execute_inner(sc: &Scenario) -> ExecOutcome {
             Drop(usize),
             Hold(usize),
             Partial(usize, usize),
+            Coalesced(usize, usize),
             Close(usize),
             Tick,
         }
@@ -356,6 +357,19 @@ fn execute_inner(sc: &Scenario) -> ExecOutcome {
                     menu.push((format!("partial:1:item{s}"), Box::new(move || Act::Partial(p, 1))));
                     menu.push((format!("partial:5:item{s}"), Box::new(move || Act::Partial(p, 5))));
                     menu.push((format!("deliver:wrongid:item{s}"), Box::new(move || Act::Deliver(p, "wrongid"))));
+                }
+            }
+            // two replies written back to back, so that one read() on the other side returns both
+            // (segment coalescing); both orders
+            let tcp_pending: Vec<usize> = pending.iter().copied().filter(|&p| matches!(items[p].via, Via::Tcp(_)) && items[p].rest.is_none()).collect();
+            if tcp_pending.len() >= 2 {
+                let (a, b) = (tcp_pending[0], tcp_pending[1]);
+                if let (Via::Tcp(ca), Via::Tcp(cb)) = (&items[a].via, &items[b].via) {
+                    if ca == cb {
+                        let (sa, sb) = (items[a].seq, items[b].seq);
+                        menu.push((format!("deliver:coalesced:item{sa}+item{sb}"), Box::new(move || Act::Coalesced(a, b))));
+                        menu.push((format!("deliver:coalesced:item{sb}+item{sa}"), Box::new(move || Act::Coalesced(b, a))));
+                    }
                 }
             }
             let mut conns: Vec<usize> = pending.iter().filter_map(|&p| if let Via::Tcp(c) = items[p].via { Some(c) } else { None }).collect();
@@ -426,6 +440,26 @@ fn execute_inner(sc: &Scenario) -> ExecOutcome {
                             exch[it.owner].lossy = true;
                         }
                         it.done = true;
+                    }
+                }
+            }
+            Act::Coalesced(a, b) => {
+                let mut buf = vec![];
+                for p in [a, b] {
+                    let it = &items[p];
+                    let body = rd::encode(&ok_reply(&it.query, it.query.id, false), true);
+                    buf.extend_from_slice(&(body.len() as u16).to_be_bytes());
+                    buf.extend_from_slice(&body);
+                }
+                if let Via::Tcp(c) = items[a].via {
+                    let ok = rig.upstreams[0].conns[c].send_raw(&buf).is_ok() && !closed_conns.contains(&c);
+                    for p in [a, b] {
+                        items[p].done = true;
+                        if ok {
+                            exch[items[p].owner].usable_ok = true;
+                        } else {
+                            exch[items[p].owner].lossy = true;
+                        }
                     }
                 }
             }
